@@ -143,7 +143,7 @@ class TlcResult:
 
 
 def tlc(module, cfg=None, workers=None, simulate=None, depth=None, env=None, timeout=1500,
-        heap="8g", extra=None, deadlock=False, tag=None, coverage=False, dfs_queue=False):
+        heap="8g", extra=None, deadlock=False, tag=None, coverage=False, dfs_queue=False, stack=None):
     """Run TLC on spec/<module>.tla with spec/<cfg>. Returns TlcResult. rc: 0 ok, 12 invariant
     violated, 13 property violated, 11 deadlock, anything else = harness error."""
     mod = module if module.endswith(".tla") else module + ".tla"
@@ -157,6 +157,8 @@ def tlc(module, cfg=None, workers=None, simulate=None, depth=None, env=None, tim
     os.makedirs(meta, exist_ok=True)
     w = str(workers or min(NCPU, 16))
     jopts = ["-XX:+UseParallelGC", "-Xmx" + heap]
+    if stack:
+        jopts.append("-Xss" + stack)   # deeply nested values (terms) need a deep Java stack
     if dfs_queue:
         jopts.append("-Dtlc2.tool.queue.IStateQueue=StateDeque")
     cmd = ["java"] + jopts + ["-cp", _community_cp(), "tlc2.TLC", "-workers", w, "-metadir", meta,
